@@ -456,6 +456,13 @@ def _xmodel(chk, cat, thorough):
                  f"the source of ops/signature.py, interpreted, accepts a non-constant argument for a parameter that every overload declares Const: "
                  f"ops.{d[0]}{d[1]} (argument {i}) -> {d[3][1]}; {len(leaks)} such tuples")  # fmt: skip
         diffs = [x for x in diffs if not any(x is l_[0] for l_ in leaks)]
+    silent = [d for d in diffs if d[2][0] == "amb" and d[3][0] == "ok"]
+    if silent:
+        d = silent[0]
+        chk.fail("XMODEL", smod, smod.func("best_signature_match"), "interpreted best_signature_match: a tie between overloads is never resolved silently",
+                 f"the source of ops/signature.py, interpreted, picks an overload for {len(silent)} argument tuples whose cheapest candidates tie, e.g. "
+                 f"ops.{d[0]}{d[1]} -> {d[3][1]}: the choice follows declaration / iteration order instead of being refused (the uniqueness of the best overload is no longer enforced)")  # fmt: skip
+        diffs = [x for x in diffs if not any(x is s_ for s_ in silent)]
     if bad:
         d = bad[0]
         chk.fail("XMODEL", smod, smod.func("best_signature_match"), "interpreted SignatureTrie.best_match: no internal failure where the model predicts a result",
